@@ -28,6 +28,7 @@ structure St where
   fieldNum : Nat := 0
   key : List Char := []
   field : List Char := []
+  noType : Bool := false            -- the active section is COLUMNS, RHS or RANGES: its records have no field 1
   file : List (List Char) := []
 deriving Repr, Inhabited
 
@@ -77,7 +78,9 @@ def skipComment (s : St) : Option (St × Bool) := do
           else scanWhile (fun c _ => isBlank c) s.line s.p 0
   let s := { s with p := p }
   let c ← rdp s 0
-  return (s, c == '$' && s.fieldNum ≥ 2 && s.fieldNum % 2 == 0)
+  -- number of the field that comes next, in the format's own counting
+  let next := s.fieldNum + 1 + (if s.noType then 1 else 0)
+  return (s, c == '$' && next ≥ 3 && next % 2 == 1)
 
 /-- `ILLmps_next_field` -/
 def nextField (s : St) : Option (St × Int) := do
